@@ -61,6 +61,82 @@ theorem iqDones_nc (n : Nat) : NCout (iqDones n) := by
   simp [iqDones, List.mem_replicate] at h
   rw [h.2]; rfl
 
+/-! ### frame of the request functions: `sendIq` / `retryN` only touch the request counter and the queue of unacknowledged stanzas -/
+
+theorem sendIq_state (s : St) : ∃ p u, (sendIq s).1 = { s with pendingIq := p, unacked := u } := by
+  unfold sendIq sendStanza
+  dsimp only
+  (repeat' split) <;> exact ⟨_, _, rfl⟩
+
+theorem retryN_state (n : Nat) (s : St) : ∃ p u, (retryN n s).1 = { s with pendingIq := p, unacked := u } := by
+  induction n generalizing s with
+  | zero => exact ⟨_, _, rfl⟩
+  | succ n ih =>
+    obtain ⟨p1, u1, e1⟩ := sendIq_state s
+    obtain ⟨p2, u2, e2⟩ := ih (sendIq s).1
+    refine ⟨p2, u2, ?_⟩
+    show (retryN n (sendIq s).1).1 = _
+    rw [e2, e1]
+
+@[simp] theorem retryN_cfg (n : Nat) (s : St) : (retryN n s).1.cfg = s.cfg := by
+  obtain ⟨p, u, e⟩ := retryN_state n s; rw [e]
+@[simp] theorem retryN_conn (n : Nat) (s : St) : (retryN n s).1.conn = s.conn := by
+  obtain ⟨p, u, e⟩ := retryN_state n s; rw [e]
+@[simp] theorem retryN_encrypted (n : Nat) (s : St) : (retryN n s).1.encrypted = s.encrypted := by
+  obtain ⟨p, u, e⟩ := retryN_state n s; rw [e]
+@[simp] theorem retryN_headerSeen (n : Nat) (s : St) : (retryN n s).1.headerSeen = s.headerSeen := by
+  obtain ⟨p, u, e⟩ := retryN_state n s; rw [e]
+@[simp] theorem retryN_wedged (n : Nat) (s : St) : (retryN n s).1.wedged = s.wedged := by
+  obtain ⟨p, u, e⟩ := retryN_state n s; rw [e]
+@[simp] theorem retryN_listener (n : Nat) (s : St) : (retryN n s).1.listener = s.listener := by
+  obtain ⟨p, u, e⟩ := retryN_state n s; rw [e]
+@[simp] theorem retryN_streamIdSet (n : Nat) (s : St) : (retryN n s).1.streamIdSet = s.streamIdSet := by
+  obtain ⟨p, u, e⟩ := retryN_state n s; rw [e]
+@[simp] theorem retryN_streamVersionSet (n : Nat) (s : St) : (retryN n s).1.streamVersionSet = s.streamVersionSet := by
+  obtain ⟨p, u, e⟩ := retryN_state n s; rw [e]
+@[simp] theorem retryN_authenticated (n : Nat) (s : St) : (retryN n s).1.authenticated = s.authenticated := by
+  obtain ⟨p, u, e⟩ := retryN_state n s; rw [e]
+@[simp] theorem retryN_sessionStarted (n : Nat) (s : St) : (retryN n s).1.sessionStarted = s.sessionStarted := by
+  obtain ⟨p, u, e⟩ := retryN_state n s; rw [e]
+@[simp] theorem retryN_bindAvail (n : Nat) (s : St) : (retryN n s).1.bindAvail = s.bindAvail := by
+  obtain ⟨p, u, e⟩ := retryN_state n s; rw [e]
+@[simp] theorem retryN_smAvail (n : Nat) (s : St) : (retryN n s).1.smAvail = s.smAvail := by
+  obtain ⟨p, u, e⟩ := retryN_state n s; rw [e]
+@[simp] theorem retryN_csiAvail (n : Nat) (s : St) : (retryN n s).1.csiAvail = s.csiAvail := by
+  obtain ⟨p, u, e⟩ := retryN_state n s; rw [e]
+@[simp] theorem retryN_smEnabled (n : Nat) (s : St) : (retryN n s).1.smEnabled = s.smEnabled := by
+  obtain ⟨p, u, e⟩ := retryN_state n s; rw [e]
+@[simp] theorem retryN_smResumed (n : Nat) (s : St) : (retryN n s).1.smResumed = s.smResumed := by
+  obtain ⟨p, u, e⟩ := retryN_state n s; rw [e]
+@[simp] theorem retryN_canResume (n : Nat) (s : St) : (retryN n s).1.canResume = s.canResume := by
+  obtain ⟨p, u, e⟩ := retryN_state n s; rw [e]
+@[simp] theorem retryN_resumeLoc (n : Nat) (s : St) : (retryN n s).1.resumeLoc = s.resumeLoc := by
+  obtain ⟨p, u, e⟩ := retryN_state n s; rw [e]
+@[simp] theorem retryN_target (n : Nat) (s : St) : (retryN n s).1.target = s.target := by
+  obtain ⟨p, u, e⟩ := retryN_state n s; rw [e]
+@[simp] theorem retryN_reconnectArmed (n : Nat) (s : St) : (retryN n s).1.reconnectArmed = s.reconnectArmed := by
+  obtain ⟨p, u, e⟩ := retryN_state n s; rw [e]
+@[simp] theorem retryN_peerShutdown (n : Nat) (s : St) : (retryN n s).1.peerShutdown = s.peerShutdown := by
+  obtain ⟨p, u, e⟩ := retryN_state n s; rw [e]
+@[simp] theorem retryN_regForm (n : Nat) (s : St) : (retryN n s).1.regForm = s.regForm := by
+  obtain ⟨p, u, e⟩ := retryN_state n s; rw [e]
+@[simp] theorem retryN_ackEnabled (n : Nat) (s : St) : (retryN n s).1.ackEnabled = s.ackEnabled := by
+  obtain ⟨p, u, e⟩ := retryN_state n s; rw [e]
+@[simp] theorem retryN_bind2Bound (n : Nat) (s : St) : (retryN n s).1.bind2Bound = s.bind2Bound := by
+  obtain ⟨p, u, e⟩ := retryN_state n s; rw [e]
+@[simp] theorem retryN_redirect (n : Nat) (s : St) : (retryN n s).1.redirect = s.redirect := by
+  obtain ⟨p, u, e⟩ := retryN_state n s; rw [e]
+@[simp] theorem retryN_pendingRetry (n : Nat) (s : St) : (retryN n s).1.pendingRetry = s.pendingRetry := by
+  obtain ⟨p, u, e⟩ := retryN_state n s; rw [e]
+@[simp] theorem retryN_hasToken (n : Nat) (s : St) : (retryN n s).1.hasToken = s.hasToken := by
+  obtain ⟨p, u, e⟩ := retryN_state n s; rw [e]
+@[simp] theorem retryN_tokenRequested (n : Nat) (s : St) : (retryN n s).1.tokenRequested = s.tokenRequested := by
+  obtain ⟨p, u, e⟩ := retryN_state n s; rw [e]
+@[simp] theorem retryN_csiSynced (n : Nat) (s : St) : (retryN n s).1.csiSynced = s.csiSynced := by
+  obtain ⟨p, u, e⟩ := retryN_state n s; rw [e]
+@[simp] theorem retryN_bind2InactiveSet (n : Nat) (s : St) : (retryN n s).1.bind2InactiveSet = s.bind2InactiveSet := by
+  obtain ⟨p, u, e⟩ := retryN_state n s; rw [e]
+
 /-- a function keeps the link non-clear and emits nothing in clear -/
 def KeepsNC (f : St → R) : Prop := ∀ s, NC s → NCout (f s).2 ∧ NC (f s).1
 
@@ -83,10 +159,42 @@ theorem enableAck_nc : KeepsNC enableAck := by
       exact send_nc h k
     · exact NCout.cons (send_nc h _) NCout.nil
 
+theorem nc_upd {s s' : St} (h : NC s) (hc : s'.conn = s.conn) (he : s'.encrypted = s.encrypted) : NC s' := by
+  unfold NC at *; rw [hc, he]; exact h
+
+theorem sendIq_nc (s : St) (h : NC s) : NCout (sendIq s).2 ∧ NC (sendIq s).1 := by
+  unfold sendIq
+  have r := sendStanza_nc (.iqRequest false) s h
+  dsimp only
+  split
+  · exact ⟨NCout.append r.1 (NCout.cons (sig_nc _) NCout.nil), r.2⟩
+  · exact ⟨r.1, nc_upd r.2 rfl rfl⟩
+
+theorem sendIqRetry_nc (s : St) (h : NC s) : NCout (sendIqRetry s).2 ∧ NC (sendIqRetry s).1 := by
+  unfold sendIqRetry
+  have r := sendStanza_nc (.iqRequest false) s h
+  dsimp only
+  split
+  · have r2 := sendIq_nc _ r.2
+    exact ⟨NCout.append (NCout.append r.1 (NCout.cons (sig_nc _) NCout.nil)) r2.1, r2.2⟩
+  · exact ⟨r.1, nc_upd r.2 rfl rfl⟩
+
+theorem retryN_nc (n : Nat) (s : St) (h : NC s) : NCout (retryN n s).2 ∧ NC (retryN n s).1 := by
+  induction n generalizing s with
+  | zero => exact ⟨NCout.nil, h⟩
+  | succ n ih =>
+    have r1 := sendIq_nc s h
+    have r2 := ih (sendIq s).1 r1.2
+    exact ⟨NCout.cons (sig_nc _) (NCout.append r1.1 r2.1), r2.2⟩
+
 theorem closeSession_nc : KeepsNC closeSession := by
   intro s h
   unfold closeSession
-  exact ⟨NCout.append (iqDones_nc _) (NCout.cons (sig_nc _) NCout.nil), h⟩
+  dsimp only
+  have r := retryN_nc (if s.canResume then 0 else s.pendingRetry)
+    { s with sessionStarted := false, ackEnabled := false, pendingIq := s.pendingIq - (if s.canResume then 0 else s.pendingIq),
+             pendingRetry := s.pendingRetry - (if s.canResume then 0 else s.pendingRetry) } (nc_upd h rfl rfl)
+  exact ⟨NCout.append (NCout.append (iqDones_nc _) r.1) (NCout.cons (sig_nc _) NCout.nil), r.2⟩
 
 /-- after the socket is gone nothing is clear, whatever the state was -/
 theorem onSocketDisconnected_down (s : St) (h : s.conn = .disconnected) :
@@ -164,19 +272,21 @@ theorem csiOnSessionOpened_nc (b : Bool) (s : St) (h : NC s) :
     · exact ⟨NCout.nil, by simpa [NC] using h⟩
     · exact csiSendState_nc s h
 
+theorem cancelOld_nc (s : St) (h : NC s) : NCout (cancelOld s).2 ∧ NC (cancelOld s).1 := by
+  unfold cancelOld
+  split
+  · exact ⟨NCout.nil, h⟩
+  · have r := retryN_nc s.pendingRetry { s with pendingIq := 0, pendingRetry := 0 } (nc_upd h rfl rfl)
+    exact ⟨NCout.append (iqDones_nc _) r.1, r.2⟩
+
 theorem openSession_nc : KeepsNC openSession := by
   intro s h
   unfold openSession
   dsimp only
-  -- the intermediate states differ from `s` only in fields `NC` does not look at
-  generalize hs2 : (if ({ s with sessionStarted := true, bind2Bound := false, canResume := s.smEnabled && s.canResume } : St).smResumed = true
-      then ({ s with sessionStarted := true, bind2Bound := false, canResume := s.smEnabled && s.canResume } : St)
-      else { ({ s with sessionStarted := true, bind2Bound := false, canResume := s.smEnabled && s.canResume } : St) with pendingIq := 0 }) = s2
-  have h2 : NC s2 := by
-    subst hs2
-    split <;> simpa [NC] using h
-  have r3 := csiOnSessionOpened_nc s.bind2Bound s2 h2
-  generalize csiOnSessionOpened s2 s.bind2Bound = r3v at r3
+  have r2 := cancelOld_nc { s with sessionStarted := true, bind2Bound := false, canResume := s.smEnabled && s.canResume } (nc_upd h rfl rfl)
+  generalize cancelOld { s with sessionStarted := true, bind2Bound := false, canResume := s.smEnabled && s.canResume } = r2v at r2
+  have r3 := csiOnSessionOpened_nc s.bind2Bound r2v.1 r2.2
+  generalize csiOnSessionOpened r2v.1 s.bind2Bound = r3v at r3
   have r4 : NCout (if r3v.1.authenticated = true then sendStanza r3v.1 (.iqRequest true) else (r3v.1, [])).2 ∧
       NC (if r3v.1.authenticated = true then sendStanza r3v.1 (.iqRequest true) else (r3v.1, [])).1 := by
     split
@@ -189,15 +299,9 @@ theorem openSession_nc : KeepsNC openSession := by
     · exact sendStanza_nc _ _ r4.2
     · exact ⟨NCout.nil, r4.2⟩
   refine ⟨?_, r5.2⟩
-  refine NCout.append (NCout.append (NCout.append (NCout.append ?_ r3.1) r4.1) (NCout.cons (sig_nc _) NCout.nil)) r5.1
-  split
-  · exact NCout.nil
-  · exact iqDones_nc _
+  exact NCout.append (NCout.append (NCout.append (NCout.append r2.1 r3.1) r4.1) (NCout.cons (sig_nc _) NCout.nil)) r5.1
 
 /-- a record update that touches neither `conn` nor `encrypted`, followed by sends in the old state -/
-theorem nc_upd {s s' : St} (h : NC s) (hc : s'.conn = s.conn) (he : s'.encrypted = s.encrypted) : NC s' := by
-  unfold NC at *; rw [hc, he]; exact h
-
 theorem armReconnect_nc {s : St} (h : NC s) : NC (armReconnect s) := nc_upd h rfl rfl
 
 theorem handleStart_nc : KeepsNC handleStart := by
@@ -329,9 +433,7 @@ theorem idleHandle'_nc (e : El) (s : St) (h : NC s) : NCout (idleHandle' s e).2 
   · exact ⟨NCout.cons (sig_nc _) NCout.nil, h⟩
   · exact sendStanza_nc _ s h
   · exact sendStanza_nc _ s h
-  · split
-    · exact ⟨NCout.nil, h⟩
-    · exact ⟨NCout.cons (sig_nc _) NCout.nil, nc_upd h rfl rfl⟩
+  · (repeat' split) <;> first | exact ⟨NCout.nil, h⟩ | exact ⟨NCout.cons (sig_nc _) NCout.nil, nc_upd h rfl rfl⟩
   · exact ⟨NCout.nil, h⟩
   · exact ⟨NCout.nil, h⟩
   · exact ⟨NCout.nil, h⟩
@@ -502,14 +604,6 @@ theorem recv_nc (e : El) (s : St) (h : NC s) : NCout (recv s e).2 ∧ NC (recv s
         · exact disconnectFromHost_nc s h
         · exact dispatch_nc e s h
 
-theorem sendIq_nc (s : St) (h : NC s) : NCout (sendIq s).2 ∧ NC (sendIq s).1 := by
-  unfold sendIq
-  have r := sendStanza_nc (.iqRequest false) s h
-  dsimp only
-  split
-  · exact ⟨NCout.append r.1 (NCout.cons (sig_nc _) NCout.nil), r.2⟩
-  · exact ⟨r.1, nc_upd r.2 rfl rfl⟩
-
 /-! ### the configuration never changes -/
 
 macro "cfg_crush" : tactic => `(tactic| ((repeat' split) <;> simp))
@@ -519,7 +613,8 @@ macro "cfg_crush" : tactic => `(tactic| ((repeat' split) <;> simp))
 @[simp] theorem sendStanza_cfg (s : St) (k : Kind) : (sendStanza s k).1.cfg = s.cfg := by
   unfold sendStanza; split <;> rfl
 @[simp] theorem enableAck_cfg (s : St) : (enableAck s).1.cfg = s.cfg := rfl
-@[simp] theorem closeSession_cfg (s : St) : (closeSession s).1.cfg = s.cfg := rfl
+@[simp] theorem closeSession_cfg (s : St) : (closeSession s).1.cfg = s.cfg := by unfold closeSession; simp
+@[simp] theorem cancelOld_cfg (s : St) : (cancelOld s).1.cfg = s.cfg := by unfold cancelOld; split <;> simp
 @[simp] theorem onSocketDisconnected_cfg (s : St) : (onSocketDisconnected s).1.cfg = s.cfg := by
   unfold onSocketDisconnected; dsimp only; cfg_crush
 @[simp] theorem socketClose_cfg (s : St) : (socketClose s).1.cfg = s.cfg := by
@@ -607,6 +702,8 @@ theorem handleStarttls_cfg (s : St) (f : Features) : ∀ r, handleStarttls s f =
   unfold sendPing; split <;> rfl
 @[simp] theorem sendIq_cfg (s : St) : (sendIq s).1.cfg = s.cfg := by
   unfold sendIq; dsimp only; split <;> simp
+@[simp] theorem sendIqRetry_cfg (s : St) : (sendIqRetry s).1.cfg = s.cfg := by
+  unfold sendIqRetry; dsimp only; split <;> simp
 @[simp] theorem step_cfg (s : St) (e : Ev) : (step s e).1.cfg = s.cfg := by
   unfold step; cfg_crush
 @[simp] theorem run_cfg (evs : List Ev) (s : St) : (run s evs).1.cfg = s.cfg := by
@@ -627,6 +724,7 @@ def Inv (s : St) : Prop := NC s ∨ PreTls s
 6235115 a connect on a live socket aborts the old connection first. -/
 def appWaits (s : St) : Ev → Prop
   | .sendIq => NC s
+  | .sendIqRetry => NC s
   | _ => True
 
 /-- a predicate holds at every step of a run -/
@@ -806,6 +904,9 @@ theorem step_safe (s : St) (e : Ev) (hreq : s.cfg.tls = .required) (hinv : Inv s
     | sendIq =>
       have := sendIq_nc s hnc
       exact ⟨allOk_of_NCout this.1, Or.inl this.2⟩
+    | sendIqRetry =>
+      have := sendIqRetry_nc s hnc
+      exact ⟨allOk_of_NCout this.1, Or.inl this.2⟩
     | recvWhitespace => exact ⟨nil_ok, Or.inl hnc⟩
     | recvPartial =>
       simp only [step]
@@ -857,6 +958,7 @@ theorem step_safe (s : St) (e : Ev) (hreq : s.cfg.tls = .required) (hinv : Inv s
       have hd := socketGone_down s
       exact ⟨allOk_of_NCout hd.1, Or.inl (nc_of_not_connected hd.2)⟩
     | sendIq => exact absurd h3 hnc
+    | sendIqRetry => exact absurd h3 hnc
     | recvWhitespace => exact ⟨nil_ok, Or.inr hpre⟩
     | recvPartial =>
       simp only [step]
@@ -909,7 +1011,8 @@ macro "red_crush" : tactic => `(tactic| ((repeat' split) <;> simp_all))
 theorem sendStanza_red (s : St) (k : Kind) (h : s.redirect = false) : (sendStanza s k).1.redirect = false := by
   unfold sendStanza; red_crush
 theorem enableAck_red (s : St) (h : s.redirect = false) : (enableAck s).1.redirect = false := h
-theorem closeSession_red (s : St) (h : s.redirect = false) : (closeSession s).1.redirect = false := h
+theorem closeSession_red (s : St) (h : s.redirect = false) : (closeSession s).1.redirect = false := by
+  unfold closeSession; simp [h]
 /-- whatever `redirect` was, it is false afterwards -/
 theorem onSocketDisconnected_red (s : St) : (onSocketDisconnected s).1.redirect = false := by
   unfold onSocketDisconnected closeSession; dsimp only; split <;> simp_all
@@ -936,18 +1039,15 @@ theorem csiOnSessionOpened_red (s : St) (b : Bool) (h : s.redirect = false) : (c
   · split
     · exact h
     · exact csiSendState_red s h
+theorem cancelOld_red (s : St) (h : s.redirect = false) : (cancelOld s).1.redirect = false := by
+  unfold cancelOld; split <;> simp [h]
 theorem openSession_red (s : St) (h : s.redirect = false) : (openSession s).1.redirect = false := by
   unfold openSession
   dsimp only
-  have h2 : (if ({ s with sessionStarted := true, bind2Bound := false, canResume := s.smEnabled && s.canResume } : St).smResumed = true
-      then ({ s with sessionStarted := true, bind2Bound := false, canResume := s.smEnabled && s.canResume } : St)
-      else { ({ s with sessionStarted := true, bind2Bound := false, canResume := s.smEnabled && s.canResume } : St) with pendingIq := 0 }).redirect = false := by
-    split <;> exact h
-  generalize (if ({ s with sessionStarted := true, bind2Bound := false, canResume := s.smEnabled && s.canResume } : St).smResumed = true
-      then ({ s with sessionStarted := true, bind2Bound := false, canResume := s.smEnabled && s.canResume } : St)
-      else { ({ s with sessionStarted := true, bind2Bound := false, canResume := s.smEnabled && s.canResume } : St) with pendingIq := 0 }) = s2 at h2
-  have h3 := csiOnSessionOpened_red s2 s.bind2Bound h2
-  generalize csiOnSessionOpened s2 s.bind2Bound = r3 at h3
+  have h2 := cancelOld_red { s with sessionStarted := true, bind2Bound := false, canResume := s.smEnabled && s.canResume } h
+  generalize cancelOld { s with sessionStarted := true, bind2Bound := false, canResume := s.smEnabled && s.canResume } = r2 at h2
+  have h3 := csiOnSessionOpened_red r2.1 s.bind2Bound h2
+  generalize csiOnSessionOpened r2.1 s.bind2Bound = r3 at h3
   have h4 : (if r3.1.authenticated = true then sendStanza r3.1 (.iqRequest true) else (r3.1, [])).1.redirect = false := by
     split
     · exact sendStanza_red _ _ h3
@@ -1037,7 +1137,7 @@ theorem idleHandle'_red (s : St) (e : El) (hc : s.conn = .connected) (h : s.redi
   · exact h
   · exact sendStanza_red _ _ h
   · exact sendStanza_red _ _ h
-  · split <;> exact h
+  · (repeat' split) <;> exact h
   · exact h
   · exact h
   · exact h
@@ -1185,6 +1285,12 @@ theorem sendIq_red (s : St) (h : s.redirect = false) : (sendIq s).1.redirect = f
   split
   · exact sendStanza_red _ _ h
   · exact sendStanza_red _ _ h
+theorem sendIqRetry_red (s : St) (h : s.redirect = false) : (sendIqRetry s).1.redirect = false := by
+  unfold sendIqRetry
+  dsimp only
+  split
+  · exact sendIq_red _ (sendStanza_red _ _ h)
+  · exact sendStanza_red _ _ h
 theorem socketGone_red (s : St) (h : s.redirect = false) : (socketGone s).1.redirect = false := by
   unfold socketGone
   split
@@ -1203,6 +1309,7 @@ theorem step_red (s : St) (e : Ev) (h : s.redirect = false) : (step s e).1.redir
   | socketDisconnected => exact socketGone_red s h
   | recv el => exact recv_red s el h
   | sendIq => exact sendIq_red s h
+  | sendIqRetry => exact sendIqRetry_red s h
   | recvWhitespace => exact h
   | recvPartial => simp only [step]; split <;> exact h
   | tick => simp only [step]; split
@@ -1217,7 +1324,7 @@ theorem run_red (evs : List Ev) (s : St) (h : s.redirect = false) : (run s evs).
 /-- features that rule out TLS, received by an idle, connected, unencrypted client that requires TLS -/
 theorem tls_unavailable_core (s : St) (f : Features) (hreq : s.cfg.tls = .required)
     (hc : s.conn = .connected) (he : s.encrypted = false) (hh : s.headerSeen = true) (hw : s.wedged = false)
-    (hl : s.listener = .idle) (hred : s.redirect = false)
+    (hl : s.listener = .idle) (hred : s.redirect = false) (hr0 : s.pendingRetry = 0)
     (hf : f.tls = .absent ∨ s.cfg.localTls = false) :
     (step s (.recv (.features f))).2 = .sent .streamClose .clear :: (iqDones s.pendingIq ++ [.sig .disconnected]) ∧
     (step s (.recv (.features f))).1.conn = .disconnected ∧ (step s (.recv (.features f))).1.sessionStarted = false ∧
@@ -1233,6 +1340,6 @@ theorem tls_unavailable_core (s : St) (f : Features) (hreq : s.cfg.tls = .requir
       registerOnFeatures, hst]
     simp
   rw [hr]
-  simp [disconnectFromHost, socketClose, onSocketDisconnected, closeSession, hc, hred, send, link, he]
+  simp [disconnectFromHost, socketClose, onSocketDisconnected, closeSession, hc, hred, send, link, he, hr0, retryN]
 
 end Qx.C04
